@@ -23,6 +23,16 @@ Theorem C13_id_addresses_holder :
   forall h id tok, oks world0 h -> clients (w_reg (wrun h)) !! id = Some tok -> w_ids (wrun h) !! tok = Some id.
 Proof. exact id_addresses_holder. Qed.
 
+(* ... conversely every connected user is the one its own ID resolves to (a message addressed to the ID a user
+   holds does reach that user), and every ID in use fits the protocol's 16-bit field *)
+Theorem C13_holder_is_addressed_by_its_id :
+  forall h tok id, oks world0 h -> w_ids (wrun h) !! tok = Some id ->
+    clients (w_reg (wrun h)) !! id = Some tok /\ id < ID_SPACE.
+Proof.
+  intros h tok id Hok A. destruct (Inv_run h world0 Inv0 Hok) as (H1 & _ & H3 & _).
+  pose proof (H1 _ _ A) as B. split; [exact B | exact (H3 _ _ B)].
+Qed.
+
 (* the allocation of the pinned tree is refuted by a concrete history (first user stays, 65,535 more
    connections come and go, the next connection gets the first user's ID and replaces its entry) *)
 Theorem C13_pinned_allocation_refuted : pinned_witness = true.
@@ -71,3 +81,4 @@ Print Assumptions C13_id_addresses_holder.
 Print Assumptions C13_roster_converges.
 Print Assumptions C13_pm_only_sender_and_holder.
 Print Assumptions C13_pm_respects_refuse_flag.
+Print Assumptions C13_holder_is_addressed_by_its_id.
